@@ -389,21 +389,26 @@ ComparePhys(A, B) ==
       structural == SetIf(A.e.internal # B.e.internal, P \o ".internal_set")
                     \cup SetIf(A.e.junctions # B.e.junctions /\ (kind = "relabel" \/ ~contaminated), P \o ".equation_set")
                     \cup SetIf(Len(A.e.pres) # Len(B.e.pres), P \o ".pressure_missing")
+      \* the analysis of exactly one of the two runs raised: the transformation did not leave the results unchanged
+      \* (far beyond the accuracy range of the default fit the known loss of accuracy also makes the fit raise)
+      oneRaised == (A.e.raised = "") # (B.e.raised = "")
+      raisedSet == SetIf(oneRaised /\ ~(A.far \/ B.far), P \o ".raised_in_one_run")
+      raisedKF  == SetIf(oneRaised /\ (A.far \/ B.far), "KF_FarFromOrigin:" \o P \o ".raised_in_one_run")
       juncEq == A.e.junctions = B.e.junctions
       hard == SetIf(juncEq /\ coefBad # {}, P \o ".coefficients")
       line == SetIf(juncEq /\ coefLine # {}, P \o ".coefficients")
   IN IF kind = "relabel"
-     THEN [fails |-> structural \cup hard \cup (IF kfName = "" THEN numeric ELSE {}),
-           kf |-> IF kfName = "" THEN {} ELSE {kfName \o ":" \o c : c \in numeric \cup line},
+     THEN [fails |-> raisedSet \cup (IF oneRaised THEN {} ELSE structural \cup hard \cup (IF kfName = "" THEN numeric ELSE {})),
+           kf |-> raisedKF \cup (IF kfName = "" \/ oneRaised THEN {} ELSE {kfName \o ":" \o c : c \in numeric \cup line}),
            hits |-> {P \o ".compared"} \cup SetIf(numOK, P \o ".tension") \cup SetIf(Len(A.e.pres) > 0, P \o ".pressure")
                     \cup SetIf(Len(A.e.coefs) > 0, P \o ".coefficients") \cup SetIf(kfName = "" /\ both /\ cond, P \o ".clean_case"),
            rejected |-> ~both \/ ~cond, extraFails |-> {}]
-     ELSE [fails |-> structural \cup (IF kfName = "" THEN numeric \cup hard ELSE {}),
-           kf |-> IF kfName = "" THEN {} ELSE {kfName \o ":" \o c : c \in numeric \cup (IF kfName = "KF_TangentDefects" THEN hard ELSE {})},
+     ELSE [fails |-> raisedSet \cup (IF oneRaised THEN {} ELSE structural \cup (IF kfName = "" THEN numeric \cup hard ELSE {})),
+           kf |-> raisedKF \cup (IF kfName = "" \/ oneRaised THEN {} ELSE {kfName \o ":" \o c : c \in numeric \cup (IF kfName = "KF_TangentDefects" THEN hard ELSE {})}),
            hits |-> {P \o ".compared"} \cup SetIf(numOK, P \o ".tension") \cup SetIf(Len(A.e.pres) > 0, P \o ".pressure")
                     \cup SetIf(Len(A.e.coefs) > 0, P \o ".coefficients") \cup SetIf(kfName = "" /\ both /\ cond, P \o ".clean_case"),
            rejected |-> ~both \/ ~cond,
-           extraFails |-> IF kfName \notin {"KF_TangentDefects", ""} THEN hard ELSE {}]
+           extraFails |-> IF kfName \notin {"KF_TangentDefects", ""} /\ ~oneRaised THEN hard ELSE {}]
 
 DoPhys(e) ==
   /\ e.ev = "Phys"
@@ -413,7 +418,8 @@ DoPhys(e) ==
                             (\/ KF_TwoPointIfc(env, q) \/ KF_SignForcedEnd(env, q, fm.rows[k].v)
                              \/ KF_LineFitPerpEnd(env, q, fm.rows[k].v, Entry(fm.rows[k], ColOf(fm, i)))))
          cur == [case |-> e.case, e |-> e, sol |-> sol, tolC |-> env.tolC, conditioned |-> env.conditioned, contaminated |-> contam,
-                 straight |-> {q \in DOMAIN env.E : env.E[q].straight}]
+                 straight |-> {q \in DOMAIN env.E : env.E[q].straight},
+                 far |-> env.offset_sizes > 4000 /\ (bo = None \/ bo.fit = "dlite")]
      IN IF e.run = 1
         THEN EmitV(e, {}, {}, {}, {}, FALSE) /\ prev' = cur
         ELSE /\ (IF prev # None /\ prev.case = e.case
